@@ -17,7 +17,7 @@ LEVEL = 'proof'
 MODULES = ['Pysmi.Props.C20', 'Pysmi.Props.C07', 'Pysmi.Props.C13', 'Pysmi.Pins.SkelC20']
 LAKE_TARGETS = ['Pysmi.Props.C20', 'Pysmi.Props.C07', 'Pysmi.Props.C13', 'Pysmi.Pins.SkelC20']
 THEOREMS = ['Pysmi.Pins.SkelC20.pin_mibdumpScript', 'Pysmi.Pins.SkelC20.pin_mibcopyScript', 'Pysmi.Cli.C20_exit', 'Pysmi.Cli.C20_report', 'Pysmi.Cli.C20_report_once', 'Pysmi.Cli.C20_mibcopy_latest', 'Pysmi.Cli.C20_mibcopy_provenance',
-            'Pysmi.Cli.C20_mibcopy_order_irrelevant', 'Pysmi.Cli.C20_mibcopy_epoch_witness', 'Pysmi.Cli.mibcopy_dst',
+            'Pysmi.Cli.C20_mibcopy_order_irrelevant', 'Pysmi.Cli.C20_mibcopy_dry_run', 'Pysmi.Cli.C20_mibcopy_dry_report', 'Pysmi.Cli.C20_mibcopy_dry', 'Pysmi.Cli.C20_mibcopy_epoch_witness', 'Pysmi.Cli.mibcopy_dst',
             'Pysmi.Generated.Cli.pin_exit_codes', 'Pysmi.Generated.Cli.pin_absent_revision', 'Pysmi.Generated.Cli.C20_exit_generated', 'Pysmi.Generated.Cli.C20_index_guard', 'Pysmi.Generated.Cli.C20_run_generated',
             'Pysmi.Compile.C07_written_iff_reported_partial', 'Pysmi.Writer.C13_atomic', 'Pysmi.Writer.C13_dryrun']
 TECHNIQUE = ('Lean 4 theorems about a model of mibdump\'s exit code and report as functions of the status map (exit codes regenerated from '
@@ -421,6 +421,12 @@ def run(ctx):
                     res.oracle_failures.append({'key': 'mibcopy-dry-run', 'what': 'mibcopy --dry-run left %r in the destination, which held %r' % (
                         got, {n: t for n, (r, t) in cs['pre'].items()}), 'input': inp})
                 res.count('mibcopy-dry-runs')
+                ids = {t: i + 1 for i, (p, n, r, t) in enumerate(cs['srcs'])}
+                ids.update({t: 100 + i for i, (n, (r, t)) in enumerate(cs['pre'].items())})
+                reqs.append({'op': 'cli', 'what': 'mibcopy', 'dry': True,
+                             'dst': [[n, r, ids[t]] for n, (r, t) in cs['pre'].items()],
+                             'srcs': [[cs['srcs'][k][1], cs['srcs'][k][2], ids[cs['srcs'][k][3]]] for k in perm if cs['srcs'][k][1] is not None]})
+                metas.append(('mibcopy', cs, sorted((n, ids.get(t)) for n, t in got.items()), inp))
                 continue
             seen = {}
             for p, n, r, t in cs['srcs']:
